@@ -1500,6 +1500,13 @@ package mq
 //@ func (*Subscribe).UnmarshalBinary
 //@   ensures len(data) >= 2 ==> self.PacketID() == specU16(data[0], data[1])                #C03
 //@   ensures len(data) > 2 ==> $pstart_1 == 2                                               #C03
+//@   -- the payload: one iteration reads one topic filter (length-prefixed string) and its options byte and appends it (3.8.3)
+//@   let fl = int(specU16(data[old(b.i)], data[old(b.i)+1]))
+//@   loop 0:
+//@     latch f_cnt:: b.err == nil ==> len(p.filters) == len(old(p.filters)) + 1 && b.i == old(b.i) + 3 + fl                     #C03
+//@     latch f_len:: b.err == nil ==> len(p.filters[len(p.filters)-1].filter) == fl                                              #C03
+//@     latch f_val:: b.err == nil ==> forall k in 0..fl: p.filters[len(p.filters)-1].filter[k] == data[old(b.i)+2+k]             #C03
+//@     latch f_opt:: b.err == nil ==> byte(p.filters[len(p.filters)-1].options) == data[old(b.i)+2+fl]                           #C03
 
 //@ func (*SubAck).UnmarshalBinary
 //@   ensures len(data) >= 2 ==> self.PacketID() == specU16(data[0], data[1])                #C03
@@ -1514,6 +1521,12 @@ package mq
 //@ func (*Unsubscribe).UnmarshalBinary
 //@   ensures len(data) >= 2 ==> self.PacketID() == specU16(data[0], data[1])                #C03
 //@   ensures len(data) > 2 ==> $pstart_1 == 2                                               #C03
+//@   -- the payload: one iteration reads one topic filter and appends it (3.10.3)
+//@   let fl = int(specU16(data[old(b.i)], data[old(b.i)+1]))
+//@   loop 0:
+//@     latch f_cnt:: b.err == nil ==> len(p.filters) == len(old(p.filters)) + 1 && b.i == old(b.i) + 2 + fl                     #C03
+//@     latch f_len:: b.err == nil ==> len(p.filters[len(p.filters)-1]) == fl                                                     #C03
+//@     latch f_val:: b.err == nil ==> forall k in 0..fl: p.filters[len(p.filters)-1][k] == data[old(b.i)+2+k]                    #C03
 
 //@ func (*UnsubAck).UnmarshalBinary
 //@   ensures len(data) >= 2 ==> self.PacketID() == specU16(data[0], data[1])                #C03
